@@ -76,5 +76,9 @@ def main (args : List String) : IO UInt32 := do
   | ["lex"] => lexLoop stdin stdout; stdout.flush; return 0
   | ["bfix"] => bfixLoop stdin stdout; stdout.flush; return 0
   | ["lines"] => Lex.linesMain stdin stdout; stdout.flush; return 0
+  | ["engine"] => Vsgm.EngineCli.engineMain stdin stdout; stdout.flush; return 0
+  | ["tokmap"] => Vsgm.TM.Cli.tokmapMain stdin stdout; stdout.flush; return 0
+  | ["cfg"] => Cfg.cfgMain stdin stdout; stdout.flush; return 0
+  | ["frame"] => Vsgm.FrameCli.frameMain stdin stdout; stdout.flush; return 0
   | ["wb"] => Vsgm.WB.wbMain stdin stdout; return 0
   | _ => IO.eprintln "usage: driver <mode>"; return 2
